@@ -110,6 +110,10 @@ def cases(tier, seed):
                 if key in seen:
                     continue
                 seen.add(key); keep.append(e)
+            # records without identifier may be given twice: two lines with equal fields (each one counts, each one goes with its segment)
+            twins = [e for e in keep if (e.split("\t")[1] == "*" if version == "gfa2" else (e[0] == "C" and "ID:Z:" not in e))]
+            if twins and rng.random() < 0.3:
+                keep = keep + [rng.choice(twins)]
             lines = [seg(s) for s in segs] + keep
             if rng.random() < 0.5:
                 lines.append("P\tpz\tA+\t*" if version == "gfa1" else "O\tpz\tA+")      # a named line that is not a segment (no effect on the topology)
@@ -131,6 +135,6 @@ if __name__ == "__main__":
     cs = cases(tier, seed)
     res = harness.run(cs, check,
                       rule="seeded random graphs: 1-4 segments, 0-5 edges from an orientation-complete pool (GFA1: L for every segment pair incl. self-links and hairpins, C; GFA2: E lines for every orientation pair x "
-                           "interval kinds pfx/sfx/whole/inner on both sides), optionally followed by rm of one segment, and in a third of the cases rebuilt line by line from clones (g2.add_line(l.clone())); oracle = union-find over the dovetail records of the (text-model) document and record counts. "
+                           "interval kinds pfx/sfx/whole/inner on both sides; in 30% of the graphs one record without identifier is given twice), optionally followed by rm of one segment, and in a third of the cases rebuilt line by line from clones (g2.add_line(l.clone())); oracle = union-find over the dovetail records of the (text-model) document and record counts. "
                            "distinct = distinct (document, removal)", bound="<=4 segments, <=5 edges, <=1 removal; plus 3 graphs of 1200 segments per version (chain, ring, two chains)", exhaustive=False)
     harness.emit(res)
